@@ -24,6 +24,8 @@ class ConcProp:
     case_type = "list event"  # type of one case
     chk_def = None            # Gallina: Definition chk (c : case_type) : bool  (trace validation against the model)
     spec_def = None           # Gallina: Definition chk_spec (c : case_type) : bool (spec on the implementation's trace)
+    dom_def = None            # optional Gallina: Definition chk_dom (c : case_type) : bool - the case lies in the domain of the uniform
+                              # "validated trace => spec" theorem (counted in the evidence; decides nothing)
     extra_targets = []
     rule = ""
     assumptions = []
@@ -111,7 +113,9 @@ class ConcProp:
                    theorems=proof["theorems"], evaluations=len(scs), distinct_nontrivial=len(nontriv), rule=self.rule,
                    samples=[(scs[i]["line"][:500] + " => " + (outs[i] or "")[:700]) for i in range(min(2, len(scs)))],
                    traces_validated_against_impl=len(scs) - len(failing) - len(missing), transitions=nevents,
-                   trace_rejections=len(failing), spec_failures=len(spec_failing), input_distribution=dict(event_kinds=dict(kinds)), exhaustive=False)
+                   trace_rejections=len(failing), spec_failures=len(spec_failing),
+                   **(dict(in_uniform_theorem_domain=len(scs) - len(getattr(self, "outside_domain", [])),
+                           outside_uniform_theorem_domain=len(getattr(self, "outside_domain", []))) if self.dom_def else {}), input_distribution=dict(event_kinds=dict(kinds)), exhaustive=False)
         write_evidence(pid, tier, seed, cov, self.assumptions, time.time() - t0, 1 if rc == 1 else 0)
         print("[%s] scenarios=%d events=%d nontrivial=%d rejected=%d spec_failures=%d wall=%.1fs rc=%d" % (
             pid, len(scs), nevents, len(nontriv), len(failing), len(spec_failing), time.time() - t0, rc))
@@ -135,9 +139,12 @@ class ConcProp:
                 f.write("].\n%s\nEval vm_compute in failing chk %d cases.\n" % (self.chk_def, lo))
                 if self.spec_def:
                     f.write("%s\nEval vm_compute in failing chk_spec %d cases.\n" % (self.spec_def, lo))
+                if self.dom_def:
+                    f.write("%s\nEval vm_compute in failing chk_dom %d cases.\n" % (self.dom_def, lo))
             files.append(path)
         procs = [subprocess.Popen(["timeout", "900", "coqc", "-noglob", "-Q", COQ, "PV", p], stdout=subprocess.PIPE, stderr=subprocess.STDOUT, text=True) for p in files]
         a, b, errors = [], [], []
+        outside = []
         for p, path in zip(procs, files):
             out = p.communicate()[0]
             if p.returncode != 0:
@@ -152,6 +159,8 @@ class ConcProp:
             ls = parse_nlist(out)
             if len(ls) > 0: a += ls[0]
             if len(ls) > 1: b += ls[1]
+            if len(ls) > 2: outside += ls[2]
+        if tag == "cases": self.outside_domain = sorted(outside)
         return sorted(a), sorted(b), errors
 
     def explain(self, case):
